@@ -273,7 +273,8 @@ class ListWithAdjustments(object):
       assert self.count_range(begin, end) > 0
       min_key, max_key = self._find_sparse_enough_range(begin, end)
       self._adjust_range(min_key, max_key)
-      assert is_valid_range(begin, self._insertions.irange(begin, end), end)
+      # Note that begin and end are stale here: _adjust_range() may have moved the neighbors they
+      # were read from, so the new keys can no longer be checked against them.
 
   def _find_sparse_enough_range(self, begin, end):
     # frac is a parameter used for relabeling, corresponding to 2/T in [Bender]. Its
